@@ -453,7 +453,7 @@ pub fn run(tier: &str, seed: u64) -> i32 {
         rep.outcome.merge(search(&subl, seed, nl, 900, &|b, col| dispatch(&subl, b, col)));
         let subw = format!("c03/{}/wide", c.name());
         let nw = super::scale(tier, 24, 200);
-        rep.outcome.merge(search(&subw, seed, nw, 6000, &|b, col| dispatch(&subw, b, col)));
+        rep.outcome.merge(crate::runner::search_len(&subw, seed, nw, 5000, 9000, &|b, col| dispatch(&subw, b, col)));
     }
     for (c, f) in [("ref:accept", 0.05), ("ref:reject:a", 0.03), ("ref:reject:b-only", 0.03), ("ref:reject:c-only", 0.03), ("identity-crafted: (b) and (c) hold, (a) fails", 0.01), ("own-prover:None", 0.01), ("own-prover:TShift", 0.02), ("own-prover:LVec", 0.005), ("own-prover:EBlind", 0.005)] {
         rep.required_classes.push((c.to_string(), f));
